@@ -21,7 +21,7 @@ PROPS["C01"] = {
     "drivers": [
         {"driver": "field", "trace": "Trace_Field"},
     ],
-    "require_classes": {"quick": ["sum_window", "diff_borrow", "mont_window", "mont_sqr_window", "decode_ge_p", "canon_reject",
+    "require_classes": {"quick": ["life_step", "life_zero", "life_reject", "sum_window", "diff_borrow", "mont_window", "mont_sqr_window", "decode_ge_p", "canon_reject",
                                   "wide_len_odd", "wide_ge_p", "wide_panic", "sqrt_residue", "sqrt_nonresidue", "sqrt_zero",
                                   "ratio_v0", "ratio_square", "ratio_nonsquare", "inv_zero", "alias_all", "alias_recv",
                                   "pow2k_panic", "near_p"]},
@@ -51,7 +51,7 @@ PROPS["C02"] = {
     "drivers": [
         {"driver": "scalar", "trace": "Trace_Scalar"},
     ],
-    "require_classes": {"quick": ["sum_window", "diff_borrow", "mont_window", "mont_sqr_window", "decode_ge_n", "canon_reject",
+    "require_classes": {"quick": ["life_step", "life_zero", "life_reject", "sum_window", "diff_borrow", "mont_window", "mont_sqr_window", "decode_ge_n", "canon_reject",
                                   "inv_zero", "inv_special", "alias_all", "alias_recv", "half_boundary", "gt_half", "le_half",
                                   "sum_empty", "sum_alias", "sum_long", "prod_empty", "pow2k_panic", "near_n", "cneg_zero"]},
     "assumptions": [
@@ -82,7 +82,7 @@ PROPS["C03"] = {
     "drivers": [
         {"driver": "point", "trace": "Trace_Point"},
     ],
-    "require_classes": {"quick": ["add_inf_inf", "add_inf_p", "add_p_inf", "add_p_p", "add_p_negp", "add_generic", "add_inf_altrep",
+    "require_classes": {"quick": ["life_step", "life_reject", "life_inf", "life_ctrl", "add_inf_inf", "add_inf_p", "add_p_inf", "add_p_p", "add_p_negp", "add_generic", "add_inf_altrep",
                                   "z_not_one", "alias_recv", "alias_all", "mixed_p_p", "mixed_p_negp", "mixed_inf", "dbl_inf",
                                   "equal_true_diffrep", "equal_neg", "equal_same_y", "equal_inf_inf", "equal_p_inf", "yodd", "yeven", "inf_parity", "enc_inf",
                                   "chain_step"]},
@@ -132,7 +132,7 @@ PROPS["C05"] = {
     "exhaustive": _MUL_A[:1] + [_MUL_A[1]],
     "drivers": [{"driver": "basemul", "trace": "Trace_Point"},
                 {"driver": "basemul", "trace": "Trace_Point", "tags": ("verif", "purego")}],        # both lookup configurations
-    "require_classes": {"quick": ["tbl_huge", "tbl_odd", "tbl_row", "bm_single_byte", "bm_zero_nibble", "bm_edge", "bm_priv", "bm_priv_after_derive"]},
+    "require_classes": {"quick": ["tbl_huge", "tbl_odd", "tbl_row", "bm_single_byte", "bm_zero_nibble", "bm_edge", "bm_priv", "bm_priv_after_derive", "bm_recycled"]},
     "assumptions": ["table entries are exhaustively checked (finite set); multiplications on multi-byte scalars are sampled"],
     "min_counts": {"tbl_huge": 8160, "tbl_odd": 480, "tbl_row": 32, "bm_single_byte": 16320},
 }
@@ -154,7 +154,8 @@ PROPS["C06"] = {
         {"spec": "MC_Sec1", "params": "mini211", "env": {"VERIF_MCFULL": "1"}, "tiers": ("thorough",)},
         {"spec": "MC_Sec1", "params": "mini163", "env": {"VERIF_MCFULL": "1"}, "tiers": ("thorough",)},
     ],
-    "drivers": [{"driver": "sec1", "trace": "Trace_Point"}],
+    "drivers": [{"driver": "sec1", "trace": "Trace_Point"},
+                {"driver": "ptlife", "trace": "Trace_Point"}],       # both encoders (and XBytes / IsYOdd) on a long-lived object after every kind of operation
     "require_classes": {"quick": ["dec_ok_cmp", "dec_ok_unc", "dec_ok_inf", "dec_bad_len", "dec_bad_prefix", "dec_noncanon_x", "dec_noncanon_y",
                                   "dec_offcurve", "dec_nonresidue", "dec_hybrid", "dec_recv_uninit", "dec_recv_kept", "dec_fresh", "coords_ok", "coords_bad",
                                   "rec_ok_low", "rec_ok_high", "rec_overflow", "rec_bad_id", "rec_nonresidue"]},
@@ -265,7 +266,7 @@ PROPS["C10"] = {
     "exhaustive": _ECDSA_A[:1] + [{"spec": "MC_Sec1", "params": "mini211", "env": {"VERIF_MCFULL": "1"}}],
     "drivers": [{"driver": "keys", "trace": "Trace_Ecdsa"}],
     "require_classes": {"quick": ["priv_ok", "priv_zero", "priv_ge_n", "priv_badlen", "pub_ok_unc", "pub_ok_cmp", "pub_identity", "pub_invalid",
-                                  "pub_twist", "ecdh_ok", "ecdh_edge", "ecdh_repeat", "key_immutable", "rec_q_inf"]},
+                                  "pub_twist", "ecdh_ok", "ecdh_edge", "ecdh_repeat", "key_immutable", "rec_q_inf", "key_after_rejected_decode"]},
     "assumptions": ["full-size keys are sampled per class with an exact oracle"],
 }
 
@@ -310,7 +311,7 @@ PROPS["C12"] = {
                                   "build_roundtrip", "build_high_bit", "build_short", "cmp_ok", "cmp_bad_len", "cmp_zero", "cmp_ge_n", "cmpv_ok",
                                   "bip_ok", "bip_len_edge", "bip_bad", "bip_but_not_der", "bip_neg", "bip_padding",
                                   "spki_ok_unc", "spki_ok_cmp", "spki_unused_bits", "spki_unused_bits_zero_pad", "spki_bad_oid", "spki_trailing",
-                                  "spki_bad_point", "spki_identity", "spki_params", "spki_bad", "random_bytes", "model_sig_shape", "model_spki_shape"]},
+                                  "spki_bad_point", "spki_identity", "spki_params", "spki_bad", "random_bytes", "model_sig_shape", "model_spki_shape", "enc_stable"]},
     "assumptions": ["full-size byte strings are enumerated per structural class and sampled at random; all strings are enumerated only at miniature width"],
 }
 
@@ -335,7 +336,8 @@ PROPS["C13"] = {
                   "official vector file re-driven.",
     "level_note": "trusted: TLC, BigInt/EcMul/SHA-256 overrides (self-tested), harness logging; the tagged-hash accessor is used only to steer inputs",
     "exhaustive": _SCHNORR_A,
-    "drivers": [{"driver": "schnorr", "trace": "Trace_Schnorr"}],
+    "drivers": [{"driver": "schnorr", "trace": "Trace_Schnorr"},
+                {"driver": "schnorr", "trace": "Trace_Schnorr", "tags": ("verif", "purego")}],   # the portable lookups are part of key derivation and signing
     "require_classes": {"quick": ["pk_ok", "pk_x_ge_n", "pk_not_on_curve", "pk_ge_p", "pk_bad_len", "vfy_accept", "vfy_reject", "r_ge_p", "s_ge_n", "s_zero",
                                   "R_odd_y", "R_inf", "x_mismatch", "msg_len_0", "msg_len_odd", "msg_len_long", "sig_bad_len", "vector"]},
     "assumptions": ["full-size inputs are constructed per corner class and decided by an exact oracle"],
@@ -352,7 +354,8 @@ PROPS["C14"] = {
                   "other representatives, identity refused) expose the even-y point, its x and a signing scalar d with d*G = that point.",
     "level_note": "trusted: TLC, BigInt/EcMul/SHA-256 overrides (self-tested), verif accessors (signSchnorr, d)",
     "exhaustive": _SCHNORR_A,
-    "drivers": [{"driver": "schnorr", "trace": "Trace_Schnorr"}],
+    "drivers": [{"driver": "schnorr", "trace": "Trace_Schnorr"},
+                {"driver": "schnorr", "trace": "Trace_Schnorr", "tags": ("verif", "purego")}],   # the portable lookups are part of key derivation and signing
     "require_classes": {"quick": ["sign_P_even_R_even", "sign_P_even_R_odd", "sign_P_odd_R_even", "sign_P_odd_R_odd", "aux_zero", "aux_ones",
                                   "sign_public_api", "sign_reader_fail", "from_point_odd", "from_point_even", "from_point_inf", "from_point_altrep",
                                   "from_ecdsa", "self_verify", "immutable", "msg_len_0", "msg_len_odd", "msg_len_long", "vector"]},
@@ -423,7 +426,8 @@ PROPS["C18"] = {
                                   "sign_ok", "sign_err", "verify_true", "verify_false", "sig_recover_ok", "sig_recover_err", "sig_kept_across_sign",
                                   "schnorr_sign", "schnorr_verify_true", "schnorr_verify_false", "ctrl_not_bool",
                                   "uniform_ok", "uniform_uninit_recv", "uniform_exceptional", "uniform_panic",
-                                  "btc_true", "btc_false", "spki_build", "spki_parse_ok", "spki_parse_err", "append_byte"]},
+                                  "btc_true", "btc_false", "spki_build", "spki_parse_ok", "spki_parse_err", "append_byte",
+                                  "equal_true", "equal_false", "equal_foreign", "prehash_ok", "prehash_err", "generate", "blind_step"]},
     "assumptions": ["histories are sampled by TLC's simulator from the exhaustive call set (all alias patterns are enumerated; sequences are random); the depth-bounded "
                     "exhaustive exploration is on the miniature curve",
                     "hash-to-curve and hedged (entropy-consuming) signing are not pool operations (covered functionally by C09, C15); pool signing uses the RFC 6979 selector and fixed BIP-340 entropy so that every reply is a function of the pool"],
